@@ -289,7 +289,12 @@ class Connection(object):
 
         try:
             data = sock.recv(self.CHUNK_SIZE)
-        except (socket.error, ssl.SSLWantReadError) as err:
+        except ssl.SSLWantReadError:
+            # Part of a TLS record has arrived, which is traffic although
+            # nothing can be handed over before the rest is there
+            self.recv_activity()
+            return True
+        except socket.error as err:
             self._logger.error('Failed to "recv" on socket: (%s) %s', err.__class__.__name__, err)
             # Optimistically continue to read
             return True
@@ -315,6 +320,12 @@ class Connection(object):
                 return False
             self.recv_raw(data)
         return True
+
+    def recv_activity(self):
+        ''' A handler function to be used when octets have arrived which
+        cannot be handed to :py:meth:`recv_raw` yet (an incomplete TLS record).
+        '''
+        pass
 
     def recv_raw(self, data):
         ''' Handler for a received block of data.
@@ -615,6 +626,10 @@ class Messenger(Connection):
         # Octets leaving are traffic as much as octets arriving
         if self._in_sess:
             self._idle_reset()
+
+    def recv_activity(self):
+        # Octets arriving inside a TLS record are traffic too
+        self._idle_reset()
 
     def close(self):
         self._idle_stop()
